@@ -372,10 +372,10 @@ Fixpoint patch_valid (n : nat) (l : attrs) : bool :=
       else patch_valid n l'
   end.
 
-(* the application loop; [inl code] = the handler answered with an error from inside the loop *)
-Fixpoint patch_apply (tbl : option table) (l : attrs) (m : mstate) (sn : snapshot) : res (nat + (mstate * snapshot)) :=
+(* the application loop; [None] = the handler answered 400 from inside the loop *)
+Fixpoint patch_apply (tbl : option table) (l : attrs) (m : mstate) (sn : snapshot) : res (option (mstate * snapshot)) :=
   match l with
-  | [] => Ok (inr (m, sn))
+  | [] => Ok (Some (m, sn))
   | (k, v) :: l' =>
       if String.eqb k "Encoding" then
         match v with
@@ -387,8 +387,8 @@ Fixpoint patch_apply (tbl : option table) (l : attrs) (m : mstate) (sn : snapsho
               do m' <- derive tbl {| m_desc := m_desc m; m_id := m_id m; m_bits := bits;
                                      m_attrs := ca_replace (m_attrs m) "ModelSuppliedPlanningUnitName" (AStr "SubCatchment") |};
               patch_apply tbl l' m' (snapshot_of m')
-            else Ok (inl 400)
-        | _ => Ok (inl 400)
+            else Ok None
+        | _ => Ok None
         end
       else patch_apply tbl l' m sn
   end.
@@ -410,8 +410,8 @@ Definition patch_model (s : state) (r : request) : outcome :=
                   let mj := {| m_desc := m_desc m; m_id := m_id m; m_bits := m_bits m; m_attrs := a_join (m_attrs m) l |} in
                   do r1 <- patch_apply (st_soltable s) l mj sn;
                   match r1 with
-                  | inl code => fail code (with_model s mj sn)   (* not reachable once validated: see EngineProofs *)
-                  | inr (m2, _) =>
+                  | None => fail 400 (with_model s mj sn)       (* not reachable once validated: see EngineProofs *)
+                  | Some (m2, _) =>
                       do m3 <- derive (st_soltable s) m2;
                       respond (ok_json (BSuccess "Model resource successfully patched")) (with_model s m3 (snapshot_of m3))
                   end
